@@ -2,6 +2,7 @@ package main
 
 import (
 	"fmt"
+	"os"
 	"go/constant"
 	"go/token"
 	"go/types"
@@ -17,8 +18,8 @@ const maxInlineInstrs = 90
 
 // externModel describes a library function that is not analysed.
 type externModel struct {
-	pure  bool                                                   // no heap effect at all
-	mods  func(P *Prog, args []ssa.Value, add func(string))      // custom footprint
+	pure  bool                                                     // no heap effect at all
+	mods  func(P *Prog, args []ssa.Value, add func(string))        // custom footprint
 	apply func(fr *Frame, args []*Val, argv []ssa.Value, res *Val) // extra facts about the result
 }
 
@@ -142,6 +143,11 @@ func (P *Prog) pureExternal(f *ssa.Function) bool {
 	return false
 }
 
+func isLoggerIface(t types.Type) bool {
+	nt, ok := types.Unalias(t).(*types.Named)
+	return ok && nt.Obj().Pkg() != nil && nt.Obj().Pkg().Path() == nazaPrefix+"pkg/nazalog" && nt.Obj().Name() == "Logger"
+}
+
 func (P *Prog) specFor(f *ssa.Function) *FuncSpec {
 	if f == nil {
 		return nil
@@ -189,12 +195,19 @@ func (fr *Frame) shouldInline(callee *ssa.Function, sp *FuncSpec) bool {
 	if !fr.ex.P.isAnalysed(callee) || fr.onStack(callee) || fr.depth >= maxInlineDepth {
 		return false
 	}
-	if fr.spec != nil && fr.spec.Modular && fr.depth == 0 && sp != nil && !sp.Inline {
+	top := fr
+	for top.parent != nil {
+		top = top.parent
+	}
+	if top.spec != nil && top.spec.Modular && sp != nil && !sp.Inline {
 		return false
 	}
-	if sp != nil {
+	if sp != nil && (sp.Inline || sp.Trusted) {
 		return sp.Inline
 	}
+	// a callee under contract is still executed in place when it is small and
+	// loop-free (its body is the strongest contract); the caller can insist on
+	// contract-only reasoning with `modular` (ghost lemmas do)
 	if fr.ex.P.pureExternal(callee) {
 		return false
 	}
@@ -295,6 +308,21 @@ func (fr *Frame) call(in ssa.Instruction, c *ssa.CallCommon, res ssa.Value, pos 
 		}
 	} else {
 		// dynamic call: interface method or function value
+		if c.IsInvoke() && isLoggerIface(c.Value.Type()) {
+			// nazalog.Logger: logging has no effect on modelled state; Panic*/Fatal* terminate
+			fr.oblige("nil", site+":invoke", not(eq(fr.val(c.Value).C[0].T, "0")), pos)
+			n := c.Method.Name()
+			if strings.HasPrefix(n, "Panic") || strings.HasPrefix(n, "Fatal") {
+				fr.oblige("panic", site, "false", pos)
+			}
+			ex.trusted["extern: nazalog.Logger methods (no panic except Panic*/Fatal*, no effect on modelled state; Assert logs only)"] = true
+			if rl != nil {
+				v := ex.freshVal(rl, "r_log")
+				ex.assumeAllocated(rl, v, fr.st.ctr)
+				setRes(v)
+			}
+			return
+		}
 		if c.IsInvoke() {
 			fr.oblige("nil", site+":invoke", not(eq(fr.val(c.Value).C[0].T, "0")), pos)
 		} else if !safeNonNil(c.Value) && !fr.nonNilFuncParam(c.Value) {
@@ -492,15 +520,42 @@ func (ex *Exec) copyCells(st *State, dst, src *Val, n string, dstKey, srcKey str
 	oldSrc := ex.heap(st, srcKey)
 	s := ex.heapSort(dstKey)
 	nh := ex.q.fresh("Hc_"+dstKey, arraySort(s))
-	z := ex.idx(0)
-	dOff := ex.q.def("doff", ar.idxSort(), dst.C[1].T)
-	sOff := ex.q.def("soff", ar.idxSort(), src.C[1].T)
-	// copied range
-	ex.q.assume(fmt.Sprintf("(forall ((j %s)) (! (=> (and %s %s) (= (select %s (elem %s %s)) (select %s (elem %s %s)))) :pattern ((select %s (elem %s %s)))))",
-		is, ar.cmp("<=", idxT, z, "j"), ar.cmp("<", idxT, "j", n),
-		nh, dst.C[0].T, ar.add(idxT, dOff, "j"), oldSrc.term, src.C[0].T, ar.add(idxT, sOff, "j"),
-		nh, dst.C[0].T, ar.add(idxT, dOff, "j")))
-	// alternative trigger on absolute index
+	_ = is
+	if useLambda {
+		// z3 array lambda: the new heap is defined pointwise, reads beta-reduce
+		// and the query stays quantifier-free (cvc5 does not accept this; it is
+		// left out of the race for such queries)
+		dOff := ex.q.def("doff", ar.idxSort(), dst.C[1].T)
+		sOff := ex.q.def("soff", ar.idxSort(), src.C[1].T)
+		nn := ex.q.def("ncp", ar.idxSort(), n)
+		inRange := and("((_ is elem) a)", eq("(ebase a)", dst.C[0].T), ar.cmp("<=", idxT, dOff, "(eidx a)"), ar.cmp("<", idxT, "(eidx a)", ar.add(idxT, dOff, nn)))
+		body := "(ite " + inRange + " (select " + oldSrc.term + " (elem " + src.C[0].T + " " + ar.add(idxT, sOff, ar.sub(idxT, "(eidx a)", dOff)) + ")) (select " + oldDst.term + " a))"
+		ex.q.n++
+		name := fmt.Sprintf("Hc_%s!%d", sanitize(dstKey), ex.q.n)
+		ex.q.lines = append(ex.q.lines, fmt.Sprintf("(define-fun %s () %s (lambda ((a Addr)) %s))", name, arraySort(s), body))
+		bases := oldDst.bases
+		if srcKey == dstKey {
+			bases = mergeBases(oldDst.bases, oldSrc.bases)
+		}
+		st.heaps[dstKey] = &HeapV{term: name, bases: bases}
+		ex.usesLambda = true
+		return
+	}
+	// patterns must be built from uninterpreted symbols only: bind the terms
+	// that occur in them to declared constants
+	bind := func(name string, s Sort, t string) string {
+		c := ex.q.fresh(name, s)
+		ex.q.assume(eq(c, t))
+		return c
+	}
+	dOff := bind("doff", ar.idxSort(), dst.C[1].T)
+	sOff := bind("soff", ar.idxSort(), src.C[1].T)
+	dBase := bind("dbase", SAddr, dst.C[0].T)
+	sBase := bind("sbase", SAddr, src.C[0].T)
+	n = bind("ncp", ar.idxSort(), n)
+	dst = &Val{C: []*Val{sv(dBase), sv(dOff), dst.C[2], dst.C[2]}}
+	src = &Val{C: []*Val{sv(sBase), sv(sOff), src.C[2], src.C[2]}}
+	// copied range (trigger on the absolute element index)
 	ex.q.assume(fmt.Sprintf("(forall ((k %s)) (! (=> (and %s %s) (= (select %s (elem %s k)) (select %s (elem %s %s)))) :pattern ((select %s (elem %s k)))))",
 		is, ar.cmp("<=", idxT, dOff, "k"), ar.cmp("<", idxT, "k", ar.add(idxT, dOff, n)),
 		nh, dst.C[0].T, oldSrc.term, src.C[0].T, ar.add(idxT, sOff, ar.sub(idxT, "k", dOff)),
@@ -511,6 +566,20 @@ func (ex *Exec) copyCells(st *State, dst, src *Val, n string, dstKey, srcKey str
 	st.heaps[dstKey] = &HeapV{term: nh, bases: oldDst.bases, quant: true}
 	ex.usesQuant = true
 }
+
+func mergeBases(a, b []*HeapBase) []*HeapBase {
+	seen := map[string]bool{}
+	var out []*HeapBase
+	for _, x := range append(append([]*HeapBase{}, a...), b...) {
+		if !seen[x.name] {
+			seen[x.name] = true
+			out = append(out, x)
+		}
+	}
+	return out
+}
+
+var useLambda = os.Getenv("GOVC_NOLAMBDA") == ""
 
 func (ex *Exec) copyCellsToS8(st *State, dst, src *Val, n string) {
 	// string(b): the new string's bytes equal the slice's current bytes
